@@ -35,6 +35,7 @@ enum Sub
     SET,
     GET_BY_TAG,
     SET_BY_TAG,
+    SET_CHOICES, // sets: every choice through its named accessor and by tag, read and toggled
     // arrays
     A_DATA,
     A_INDEX,
